@@ -22,6 +22,10 @@ class C01Bloom(Scenario):
             cfg = structs.BloomSubject.gen_cfg(rng, small=rng.chance(2, 3))
         cfg.update({"subject": name, "steps": rng.between(4, self.max_steps), "fault_free": rng.chance(1, 5),
                     "universe": rng.choice((6, 12, 24, 48))})
+        if name != "ExpandingBloomFilter" and rng.chance(1, 150):
+            # bit arrays of more than 64 KiB (whatever is merged, copied or written in blocks)
+            est, rate = rng.choice(((100000, 0.05), (60000, 0.01), (110000, 0.01)))
+            cfg.update({"est": est, "rate": rate, "steps": rng.between(4, 12), "large": True, "universe": 24})
         return cfg
 
     def gen_step(self, rng):
